@@ -25,7 +25,9 @@ Val(a) == CASE a = "1" -> 1 [] a = "2" -> 2 [] OTHER -> 0
 Init == /\ enabled = TRUE /\ vbal = [d \in Vouchers |-> 0] /\ esc = vbal /\ sup = vbal /\ tok = vbal
         /\ registered = [d \in Vouchers |-> FALSE] /\ pairon = registered /\ ext = registered /\ xreg = FALSE /\ xbad = FALSE /\ mx = 0 /\ out = vbal /\ last = [act |-> "Init", res |-> "ok"]
 (* the transfer application's verdict *)
-TransferOK(a, r) == a \in {"1", "2"} /\ r = "user"
+(* (receiver class "hexsender": the receiver is the user, the packet's sender field is not a bech32 string - an EVM hex address of the *)
+(* counterparty; the transfer application only asks for a non-blank sender)                                                          *)
+TransferOK(a, r) == a \in {"1", "2"} /\ r \in {"user", "hexsender"}
 Converts(d) == enabled /\ registered[d] /\ pairon[d]
 (* module-owned pair: vouchers escrowed, tokens minted.  Pair of the external token X: vouchers escrowed, X paid out *)
 (* of the module's holdings, vouchers burnt - and when the module cannot pay, the whole conversion is undone.      *)
